@@ -1411,7 +1411,7 @@ def cargo(args, timeout=1500):
     if not os.path.exists(lock):
         shutil.copy('/repo/Cargo.lock', lock)
     p = subprocess.run(['cargo'] + args + ['--offline', '--message-format=short'], cwd=K2DIR, env=env,
-                       capture_output=True, text=True, timeout=timeout)
+                       stdin=subprocess.DEVNULL, capture_output=True, text=True, timeout=timeout)
     return p.returncode, p.stdout, p.stderr
 
 def build_and_run(mods, max_rounds=4):
@@ -1435,7 +1435,7 @@ def build_and_run(mods, max_rounds=4):
         mods = [(tid, src) for tid, src in mods if tid not in bad]
     else:
         raise RuntimeError('k2 crate keeps failing to build')
-    p = subprocess.run([os.path.join(ROOT, '_build/k2target/debug/k2')], capture_output=True, text=True, timeout=600)
+    p = subprocess.run([os.path.join(ROOT, '_build/k2target/debug/k2')], stdin=subprocess.DEVNULL, capture_output=True, text=True, timeout=600)
     return p.stdout.split('\n'), compile_fail, p.returncode
 
 def run(pid, suites, tier, seed, n=None, hostile=False, only_ops=None):
